@@ -5,7 +5,7 @@ CONFIG = {
     "properties_files": ["theories/File/Properties.v"],
     "required_theorems": ["trace_ok_all", "refcount_exact", "closed_exactly_once_at_zero", "no_use_after_release", "frozen_implies_referenced", "frozen_content_stable", "upload_digest_matches", "cache_invalidated", "wake_enabled"],
     "harnesses": [
-        {"cmd": "file", "cases_quick": 320, "cases_thorough": 8000, "shards_quick": 8, "shards_thorough": 32, "race": True},
+        {"cmd": "file", "cases_quick": 320, "cases_thorough": 8000, "shards_quick": 8, "shards_thorough": 32, "race": True, "shared": True, "coq_dirs": ["theories/File"]},
     ],
     "trusted_base": [
         "hand-written model coq/theories/File/Model.v of pool_backed_file_allocator.go (fileBackedFile, frozenFileBackedFile, uploadFile, getBazelOutputServiceStat) and of the Link/Unlink/link-count layer of fuse_handle_allocator.go / nfs_handle_allocator.go; one model event = one critical section under f.lock; tied to the code by the correspondence harness harness/cmd/file",
